@@ -4,6 +4,7 @@ import (
 	"encoding/json"
 	"errors"
 	"fmt"
+	"math"
 	"strings"
 
 	"github.com/yaricom/goNEAT/v4/neat/genetics"
@@ -23,13 +24,17 @@ func init() {
 
 type c14Input struct {
 	Family  string   `json:"family"`
-	Via     string   `json:"via"` // "ctor": NewNNode/ConnectFrom/NewNetwork; "genesis": plain genome text -> ReadGenome -> Genesis
+	Via     string   `json:"via"`   // "ctor": NewNNode/ConnectFrom/NewNetwork; "genesis": plain genome text -> ReadGenome -> Genesis
 	Nodes   [][2]int `json:"nodes"` // [id, neuron type], in allNodes order
 	Inputs  []int    `json:"inputs"`
 	Outputs []int    `json:"outputs"`
 	Links   [][2]int `json:"links"` // [in id, out id], in creation order
 	Control int      `json:"control"`
 	Queries [][2]int `json:"queries"`
+	// per link, optional: bit 0 = Link.IsRecurrent, bit 1 = Link.IsTimeDelayed (public fields a caller may set;
+	// depth is topological and must ignore them), and the weight (1.0 when absent; 0 and negative included)
+	Flags   []int     `json:"flags,omitempty"`
+	Weights []float64 `json:"weights,omitempty"`
 }
 
 type c14Obs struct {
@@ -64,7 +69,14 @@ func c14Build(in c14Input) (*network.Network, error) {
 			fmt.Fprintf(&sb, "node %d 1 %d %d SigmoidSteepenedActivation\n", nd[0], nt, nd[1])
 		}
 		for i, l := range in.Links {
-			fmt.Fprintf(&sb, "gene 1 %d %d 1.0 false %d 0 true\n", l[0], l[1], i+1)
+			w, rec := 1.0, false
+			if i < len(in.Weights) {
+				w = in.Weights[i]
+			}
+			if i < len(in.Flags) {
+				rec = in.Flags[i]&1 != 0
+			}
+			fmt.Fprintf(&sb, "gene 1 %d %d %v %v %d 0 true\n", l[0], l[1], w, rec, i+1)
 		}
 		sb.WriteString("genomeend 1\n")
 		g, err := genetics.ReadGenome(strings.NewReader(sb.String()), 1)
@@ -80,12 +92,20 @@ func c14Build(in c14Input) (*network.Network, error) {
 		byId[nd[0]] = n
 		all = append(all, n)
 	}
-	for _, l := range in.Links {
+	for i, l := range in.Links {
 		a, b := byId[l[0]], byId[l[1]]
 		if a == nil || b == nil {
 			return nil, fmt.Errorf("link %v names no node", l)
 		}
-		b.ConnectFrom(a, 1.0)
+		w := 1.0
+		if i < len(in.Weights) {
+			w = in.Weights[i]
+		}
+		lk := b.ConnectFrom(a, w)
+		if i < len(in.Flags) {
+			lk.IsRecurrent = in.Flags[i]&1 != 0
+			lk.IsTimeDelayed = in.Flags[i]&2 != 0
+		}
 	}
 	pick := func(ids []int) []*network.NNode {
 		out := make([]*network.NNode, 0, len(ids))
@@ -330,7 +350,7 @@ type c14Gen struct {
 	r *Run
 }
 
-func (g c14Gen) intn(n int) int { return g.r.Rng.Intn(n) }
+func (g c14Gen) intn(n int) int        { return g.r.Rng.Intn(n) }
 func (g c14Gen) chance(p float64) bool { return g.r.Rng.Float64() < p }
 
 // finish: relabels the nodes 0..n-1 of a draft with distinct ids, shuffles node and link order,
@@ -363,6 +383,17 @@ func (g c14Gen) finish(family string, types []int, links [][2]int) c14Input {
 	}
 	if in.Links == nil {
 		in.Links = [][2]int{}
+	}
+	if g.chance(0.4) {
+		ws := []float64{0, -1, 1, 0.5, -2.5, 1e-300, math.Inf(1)}
+		for range in.Links {
+			f := 0
+			if g.chance(0.3) {
+				f = 1 + g.intn(3)
+			}
+			in.Flags = append(in.Flags, f)
+			in.Weights = append(in.Weights, ws[g.intn(len(ws))])
+		}
 	}
 	return in
 }
